@@ -295,6 +295,8 @@ def files(ctx, n, viol):
         if rng.random() < 0.15:
             for kx in rng.sample(["user.tag", "security.tagged", "user.kind", "security.apparmor"], rng.randint(1, 3)):
                 xattrs[kx] = rng.choice(["x", "allowed", "*", "y-%s" % name])
+        if rng.random() < 0.08:
+            name = '"%s app"' % name        # a profile name with a blank is written in quotes
         hdr = "profile " + name + ((" " + att) if att else "")
         if xattrs:
             hdr += " xattrs=(" + " ".join("%s=%s" % kv for kv in xattrs.items()) + ")"
